@@ -32,11 +32,17 @@ import tempfile
 
 from ..core import Ctx, MachineryError, digest
 from ..forkpool import prepare_imports, run_cases
-from ..lattice import ALL, EMBEDDINGS, ORIGIN0
+from fractions import Fraction as F
+
+from ..lattice import ALL, EMBEDDINGS as _EMB, ORIGIN0, Emb
 from .. import tlc
 from .c15 import trace_outline
 
 K = 1000
+# designs in very small units for the string-built netlists of the rect / legaliser stages: 1e-6 ("micro", decimal) and
+# 1e-6 / 3 (every coordinate needs all its digits): a writer that keeps a fixed number of DECIMALS loses the design
+EMBEDDINGS = dict(_EMB, micro3=Emb("micro3", F(1, 3 * 10 ** 6)))
+SMALL = ["micro", "micro3"]
 DEN = 4
 EVENTS_PER_TRACE = 30
 # legaliser: the die origin is (0,0) and the system has absolute tolerances (see c09): units >= ~1
@@ -404,7 +410,9 @@ def embeddings_for(case, k):
     if p in ("die", "floorset_fpef", "floorset_dief"):
         pool = ORIGIN0                                # the die starts at the origin
     elif p == "legal":
-        pool = LEGAL_EMBS
+        pool = LEGAL_EMBS + SMALL
+    elif p in ("rect_solution", "rect_netlist"):
+        pool = ALL + SMALL
     else:
         pool = ALL
     n = case.get("nemb", 2)
@@ -444,11 +452,11 @@ def random_cases(rng: random.Random, n: int) -> list[dict]:
                 w = rng.choice([2, 4, 8])
                 names = rng.sample(["A", "B", "C", "D"], rng.randint(0, 3))
                 cells.append([x, 0, x + w, rng.choice([4, 8]), rng.choice(["_", "dsp", "bram"]), rng.randint(0, 2),
-                              [[m, rng.randint(1, 4)] for m in names]])
+                              [[m, rng.randint(0, 4)] for m in names]])
                 x += w
             ops = "+".join(rng.choice(["refine", "griddify", "uniform"]) for _o in range(rng.randint(1, 3)))
             cases.append({"prod": "alloc", "src": cells, "op": ops})
-            if any(c[6] for c in cells):
+            if any(c[6] for c in cells) and all(k > 0 for c in cells for _m, k in c[6]):
                 cases.append({"prod": "rect_netlist", "src": [c[:5] + [0, c[6]] for c in cells], "op": "none"})
         elif kind == 2:     # dies with more regions
             W, H = rng.randint(6, 12), rng.randint(6, 12)
@@ -626,7 +634,8 @@ def run(ctx: Ctx) -> int:
     ctx.assumptions += [
         "float dimension sampled by the embeddings of harness/lattice.py: every TLC-emitted object under 2 (quick) or 3 (thorough; 2 for dies, "
         "allocations, rect_netlist and the legaliser) of them, "
-        "rotating so that all are used (dies and FloorSet instances: origin-0 embeddings; legaliser: those of C09; the generator has no coordinates)",
+        "rotating so that all are used (dies and FloorSet instances: origin-0 embeddings; legaliser: those of C09; rect_solution, rect_netlist and "
+        "the legaliser also in units of 1e-6 and 1e-6/3; the generator has no coordinates)",
         "observed numbers are compared in 1/1000 lattice units (1/1000 for ratios and weights); centroids and areas within one such unit",
         "the reader runs as in a fresh process (Rectangle tolerances undefined before every load)",
         "generator sizes outside Defined (ring-star 1, one-net 1) are outside the quantifier and are not run",
